@@ -1,5 +1,6 @@
 // ---- directory_lookup unit (C02 partial, C11 reader filter): server-side assembly of a lookup answer
 use vstd::future::FutureAdditionalSpecFns;
+pub mod errors { pub use crate::AkdError; }
 pub mod akd_core {
     pub mod ecvrf { pub use crate::VrfError; }
     pub mod verify { pub use crate::VerificationError; }
@@ -36,10 +37,50 @@ pub struct Directory<TC, S: Database, V> {
 pub struct VxLock { _p: () }
 #[verifier::external_body]
 pub struct VxGuard { _p: () }
+// knowledge tokens of ONE poller iteration (loop bodies are verified from the loop invariants only, so nothing learnt in an earlier
+// iteration is available): the exclusive lock was taken; the cache was flushed; the epoch record was re-read through the flushed cache
+pub uninterp spec fn excl_lock_taken() -> bool;
+pub uninterp spec fn cache_flushed<S: Database>(st: &StorageManager<S>) -> bool;
+pub uninterp spec fn reloaded_after_flush<S: Database>(st: &StorageManager<S>) -> bool;
 impl VxLock {
     #[verifier::external_body]
     pub async fn read(&self) -> VxGuard { unimplemented!() }
+    #[verifier::external_body]
+    pub async fn write(&self) -> (g: VxGuard) ensures excl_lock_taken() { unimplemented!() }
 }
+// tokio pieces the poller uses (model): sleep, and a channel whose send is the CHANGE SIGNAL - it may be sent only after the flush
+// and the reload (C13: once the signal is out, later requests on this instance are answered from an epoch at least that new)
+pub mod tokio {
+    use super::*;
+    pub mod time {
+        #[verifier::external_body]
+        pub struct Duration { _p: () }
+        impl Clone for Duration { #[verifier::external_body] fn clone(&self) -> Self { unimplemented!() } }
+        impl Copy for Duration {}
+        #[verifier::external_body]
+        pub async fn sleep(d: Duration) { unimplemented!() }
+    }
+    pub mod sync { pub mod mpsc {
+        #[verifier::external_body]
+        #[verifier::reject_recursive_types(T)]
+        pub struct Sender<T> { _t: core::marker::PhantomData<T> }
+        #[verifier::external_body]
+        pub struct SendError { _p: () }
+        impl<T> Sender<T> {
+            #[verifier::external_body]
+            pub async fn send(&self, value: T) -> Result<(), SendError>
+                requires crate::signal_permitted()
+            { unimplemented!() }
+        }
+    } }
+}
+// the permission to signal: granted by the caller-side protocol below (flush, then reload, both under the exclusive lock)
+pub uninterp spec fn signal_permitted() -> bool;
+#[verifier::external_body]
+pub proof fn grant_signal<S: Database>(st: &StorageManager<S>)
+    requires excl_lock_taken(), cache_flushed(st), reloaded_after_flush(st)
+    ensures signal_permitted()
+{}
 
 // ---- the VRF, as functions of (key storage, label, freshness, version) - T4
 #[verifier::external_body]
